@@ -216,7 +216,9 @@ def schema_mutants(st):
     rules = st[1]
     out = []
     for i, r in enumerate(rules):
-        for k, m in rule_mutants(r)[:12]:
+        muts = rule_mutants(r)
+        muts = [x for x in muts if x[0].endswith("commute")] + muts[:12]
+        for k, m in muts:
             out.append(("rule%d:%s" % (i, k), ("schema", rules[:i] + (m,) + rules[i + 1:])))
         out.append(("drop-rule", ("schema", rules[:i] + rules[i + 1:])))
     out.append(("add-rule", ("schema", rules + (RULES[0],))))
@@ -238,10 +240,15 @@ RULES = [T.rule(PATHS[i], LEAVES[j], cast) for i, j, cast in [
     (0, 44, ()), (1, 0, ()), (1, 0, (("str", "int"),)), (1, 48, (("str", "bool"),)), (2, 0, ()), (3, 0, ()), (6, 0, ()), (7, 0, ()),
     (8, 48, ()), (9, 6, (("str", "int"),)), (10, 19, ()), (11, 0, ()), (12, 0, ()), (13, 0, ()), (15, 13, ()), (17, 6, ()),
     (19, 41, ()), (26, 0, ()), (27, 42, ()), (1, 13, ())]] + \
-    [T.rule(PATHS[1], ("and", LEAVES[6], LEAVES[48])), T.rule(PATHS[1], ("or", LEAVES[0], ("xor", LEAVES[19], LEAVES[6])))]
+    [T.rule(PATHS[1], ("and", LEAVES[6], LEAVES[48])), T.rule(PATHS[1], ("or", LEAVES[0], ("xor", LEAVES[19], LEAVES[6]))),
+     T.rule(PATHS[1], ("and", LEAVES[19], LEAVES[0])), T.rule(PATHS[1], ("and", LEAVES[44], LEAVES[7])),
+     T.rule(PATHS[1], ("or", LEAVES[48], LEAVES[6]))]
 SCHEMAS = [("schema", ())] + [("schema", (r,)) for r in RULES[:8]] + \
           [("schema", (RULES[i], RULES[j])) for i, j in [(1, 4), (4, 1), (1, 2), (6, 7), (0, 1), (8, 9), (1, 1), (12, 4), (5, 3)]] + \
-          [("schema", (RULES[0], RULES[1], RULES[6])), ("schema", (RULES[6], RULES[1], RULES[0]))]
+          [("schema", (RULES[0], RULES[1], RULES[6])), ("schema", (RULES[6], RULES[1], RULES[0]))] + \
+          [("schema", (RULES[20], RULES[1])), ("schema", (RULES[1], RULES[21])), ("schema", (RULES[20], RULES[21], RULES[19])),
+           # several combination-conditioned rules on ONE path (their relative order is all that distinguishes schemas)
+           ("schema", (RULES[20], RULES[22])), ("schema", (RULES[22], RULES[20], RULES[23])), ("schema", (RULES[21], RULES[24], RULES[20]))]
 
 C_DOCS = [[0, 1, 2, 3, 1.0, True, 1.5, "a", "abc", None, [1, 2], {"a": 1}, {"a": 1, "b": 2}, "", [], {}, 6, 4],
           dict(zip(["a", "b", 1, 0, 1.5, None, "abc", "", 2, "c", "d", "e", "f", "g", "h", "i", "j", "k"],
